@@ -1,8 +1,8 @@
 // C04 correspondence harness for exporter/exporterhelper/xexporterhelper (profiles); injected by overlay.
-// Same protocol as harness/C04/l3m4_test.go: case terms (CL3 2 sizer max a b obs)%Z.  An item is a
-// PROFILE (the unit the extract* functions move); its weight in the request-level count of the items
-// sizer is its number of samples (ProfilesCountSizer.ProfilesSize = SampleCount, every level below counts
-// profiles) — the model takes that weight as the third component of an item.
+// Same protocol as harness/C04/l3m4_test.go: case terms (CL3 2 sizer max a b obs)%Z.  The unit the extract*
+// functions move is a PROFILE; it weighs its number of samples for the items sizer (every level of
+// ProfilesCountSizer counts samples) — the model takes that weight as the third component of an item.  The
+// conservation oracle counts SAMPLES (the property's items), each with its profile id and contexts.
 package xexporterhelper
 
 import (
@@ -164,8 +164,7 @@ func TestVerifC04Profiles(t *testing.T) {
 	g := &c04Gen{r: vNewRand(0xC04F)}
 	n := vBudget(260, 12)
 	for i := 0; i < n; i++ {
-		// the items sizer of profiles is a known-finding region (mixed units): keep it a small share
-		c04One(out, sg, g, g.r.Pick(1, 4), 0)
+		c04One(out, sg, g, g.r.Pick(1, 1), 0)
 	}
 	for i := 0; i < vBudget(4, 6); i++ {
 		c04One(out, sg, g, 1, 1)
